@@ -45,6 +45,7 @@ def run(ctx):
         r3(ctx, facts, cfg)
         r4(ctx, facts, cfg)
         r5(ctx, facts, cfg)
+        r5_siblings(ctx, facts, cfg)
 
 
 def r1(ctx, facts, cfg, rule):
@@ -368,6 +369,26 @@ def r4(ctx, facts, cfg):
                     ifs = [a for a in x.ancestors(e) if a["k"] == "IfStmt" and in_subtree(a, loops[0])]
                     if not ifs or not any(y["k"] == "CallExpr" or is_call(y) for y in walk(ifs[0]["cond"])):
                         ok = False
+        if loops and ok:
+            # polarity: the loop is left exactly on the 'callback returned true' outcome
+            xg = x.g
+            cbp = x.rec["params"][0]["did"]
+            stop = []
+            for b2, blk in xg.blocks.items():
+                c = xg.term_cond(b2)
+                if c is None:
+                    continue
+                core, neg = core_and_neg(c)
+                cs_ = strip(core, casts=True)
+                if isnode(cs_) and cs_["k"] == "CXXOperatorCallExpr" and var_ref(cs_["args"][0]) == cbp:
+                    stop.append((b2, "F" if neg else "T"))
+            heads = [tnode(xg, b2) for b2, blk in xg.blocks.items() if blk.get("term") == "CXXForRangeStmt"]
+            has_exit = any(e["k"] in ("BreakStmt", "ReturnStmt", "GotoStmt") for e in walk(loops[0].get("body")))
+            if has_exit:
+                # 'stop' leaves without coming back to the loop head; 'go on' cannot leave except through the loop head
+                ok = bool(stop) and bool(heads) and \
+                    all(xg.exists_path([y for (y, lab) in xg.succ.get(tnode(xg, b2), ()) if lab == l], [xg.exit_node], avoid_nodes=heads) for (b2, l) in stop) and \
+                    all(not xg.exists_path([y for (y, lab) in xg.succ.get(tnode(xg, b2), ()) if lab == other(l)], [xg.exit_node], avoid_nodes=heads) for (b2, l) in stop)
         ctx.ob("C06.R4d", "LoggerManager::for_each_logger:visits-all", ok,
                "for_each_logger visits every registered logger unless the callback asks to stop", fn=x)
         break
@@ -401,6 +422,28 @@ def r5(ctx, facts, cfg):
     ok = bool(writes) and bool(marks) and not g.exists_path(writes, [g.exit_node], avoid_nodes=marks)
     ctx.ob("C06.R5c", "StreamSink::write_log:marks-dirty", ok,
            "every path on which bytes were written marks the stream dirty, so the next flush_sink is not skipped", fn=wl)
+
+
+def r5_siblings(ctx, facts, cfg):
+    """R5d: sinks built on StreamSink that write to the stream themselves (ConsoleSink's colour codes, ...) leave it marked dirty: a call
+    that put bytes into the FILE* also passed StreamSink::write_log (which marks) or sets the flag itself — otherwise flush_sink skips
+    the fflush and flush_log() returns with the statement still in the stdio buffer"""
+    n = 0
+    for f in facts.fns:
+        if f.config != cfg or f.short == "quill::StreamSink::write_log" or not f.short.startswith("quill::"):
+            continue
+        direct = [c for c in f.calls(r"(::safe_fwrite$|^(std::)?fwrite$|^(std::)?fputs$|^(std::)?fprintf$)") if any(is_this_field(x, "_file") for a in c["args"] for x in walk(a))]
+        if not direct or f.short in ("quill::StreamSink::safe_fwrite",):
+            continue
+        g = f.g
+        n += 1
+        marks = npos(f, [c for c in f.calls(r"^quill::StreamSink::write_log$")]) + \
+            npos(f, [x for x in f.walk() if x["k"] == "BinaryOperator" and x["op"] == "=" and is_this_field(x["lhs"], "_write_occurred") and const_val(x["rhs"]) == 1])
+        bad = [c["loc"] for c in direct if any(g.exists_path([g.entry_node], [p_], avoid_nodes=marks) and g.exists_path([p_], [g.exit_node], avoid_nodes=marks) for p_ in g.positions(c))]
+        ctx.ob("C06.R5d", "%s:direct-write-marks-dirty" % f.short.replace("quill::", "")[:90], not bad,
+               "a write to the stream made outside StreamSink::write_log is accompanied, on every path through it, by StreamSink::write_log "
+               "or by setting the dirty flag (unmarked writes at: %s)" % (bad or "none"), fn=f)
+    ctx.floor("C06.R5d", "functions of StreamSink-derived sinks that write to the stream directly", n, 1)
 
 
 def branches_on_early_return(f):
